@@ -219,6 +219,23 @@ func staticCheck(prop string, salt int, families []string, nProgQ, nProgT, nMutQ
 			c.Sample(map[string]interface{}{"mutation": m.m.Desc, "reference": m.v.String(), "grits": clip(m.o.Res.TcErr+m.o.Res.ParseErr, 160), "program": m.text})
 		}
 	}
+	if prop == "C05" || prop == "C07" {
+		// witnesses of repaired acceptance defects: must stay rejected
+		fs, _ := filepath.Glob("/verif/known/fixed/reject-*.grits")
+		for _, f := range fs {
+			b, err := os.ReadFile(f)
+			if err != nil {
+				continue
+			}
+			o := pool.Run([]sup.Job{{Kind: "typecheck", Text: string(b)}}, nil)[0]
+			c.Evaluations++
+			if o.Res != nil && o.Res.ParseOK && o.Res.TcOK {
+				c.Violation("accepts the witness of a repaired defect again: "+filepath.Base(f), map[string]interface{}{"program": string(b)})
+			} else {
+				c.Nontrivial(f)
+			}
+		}
+	}
 	if prop == "C06" {
 		if b, err := os.ReadFile("/verif/known/K1.grits"); err == nil {
 			o := pool.Run([]sup.Job{{Kind: "typecheck", Text: string(b)}}, nil)[0]
